@@ -40,7 +40,8 @@ func TestMain(m *testing.M) {
 		"range:open-begin", "range:one-section", "range:beyond-head", "range:single-block", "path:indexed", "path:unindexed", "path:indexed-only",
 		"progress:0", "progress:all", "progress:partial", "size:8", "size:16", "size:64", "topic:wildcard-position", "topic:4-positions",
 		"criteria-longer-than-log", "addr:none", "retrieval-dropped", "leg-a:real-exec-block-with-logs", "leg-a:generated", "leg-c:matcher-session",
-		"leg-d:index-content", "index:chain-indexer", "chain:real", "chain:synthetic", "result:empty", "result:some", "result:all", "fp-block", "corpus")
+		"leg-d:index-content", "index:chain-indexer", "chain:real", "chain:synthetic", "result:empty", "result:some", "result:all", "fp-block", "corpus",
+		"reorg:during", "reorg:after", "reorg:before-start", "reorg:mid-section-after-fork", "reorg:indexed-above-fork")
 	ev.Main(m, ev.Config{
 		Property: "C16",
 		Level:    "exploration",
@@ -48,6 +49,7 @@ func TestMain(m *testing.M) {
 			"against one chain; chains are (i) 40-300 block synthetic chains whose receipts hold generated logs (0-6 logs per receipt, 0-4 topics, pool and random addresses/topics) written to a node database " +
 			"with the node's own writers, and (ii) chains of blocks executed by the node's state processor from generated transactions to the log-emitting contracts; 50-200 queries reuse one chain. " +
 			"The bloom-bits index is built with the real Generator/WriteBloomBits for section sizes 8, 16, 64 (and 2048 in the thorough tier). " +
+			"(iii) synthetic chains that reorganise under a running core.ChainIndexer before it starts, after it has indexed, or at a chosen canonical-number read in the middle of a section (the harness performs the reorganisation inside that database read and sends the chain events). " +
 			"Also counted: generated receipt sets for the pure bloom functions. non-trivial = the brute-force answer is neither empty nor every log of the queried range; " +
 			"distinct = hash of (head block hash, section size, progress, range, criteria)",
 		Assumptions: []string{
